@@ -121,3 +121,106 @@ pub fn subsec_near_power_of_ten(rng: &mut Rng) -> u32 {
     let v = if rng.chance(2, 3) { p.saturating_sub(j) } else { p.saturating_add(j) };
     v.min(999_999_999)
 }
+
+/// "Representation relatives" of an instant.  A value is stored as (day number, nanosecond of the day); code that
+/// folds the two fields into one key or word (equality, ordering, hashing, a memo key, a difference shortcut) is
+/// only right when the radix / shift really separates them, and a bit trick (`^`, `|`, wrap-around of an unsigned
+/// subtraction) only coincides with arithmetic for powers of two.  Given `i`, returns a *different-looking* `j`
+/// that such a fold would confuse with `i`:
+///   0  d+m, n−m·R for a radix R ∈ {2^s, 10^k} that is smaller than a day (arithmetic fold `d·R + n`)
+///   1  d^x, n^(x<<s) for a shift s < 47 (xor / or fold `(d<<s) ^ n`)
+///   2  same day, n ^ (k·U) or n | (k·U) for a unit U (xor used as a difference)
+///   3  a difference q·U + (2^w mod U) (what is left after an unsigned wrap-around modulo a unit), either sign
+/// `None` when the relative would leave [lo, hi] or the day.
+pub fn alias_relative(rng: &mut Rng, i: i128, lo: i128, hi: i128) -> Option<(i128, i128, &'static str)> {
+    let mut n = i.rem_euclid(D);
+    let d = i.div_euclid(D);
+    let (j, tag) = match rng.below(4) {
+        0 => {
+            let r: i128 = if rng.chance(1, 2) { 1i128 << rng.range_i64(20, 46) } else { 10i128.pow(rng.range_i64(6, 13) as u32) };
+            let mmax = (D - 1) / r;
+            if mmax < 1 {
+                return None;
+            }
+            let m = rng.range_i128(1, mmax.min(8)) * if rng.chance(1, 2) { 1 } else { -1 };
+            // the first value's time of day is re-drawn when n − m·R would leave the day
+            if !(0..D).contains(&(n - m * r)) {
+                n = if m > 0 { rng.range_i128(m * r, D - 1) } else { rng.range_i128(0, D - 1 + m * r) };
+            }
+            ((d + m) * D + (n - m * r), "alias/radix-fold")
+        }
+        1 => {
+            let s = rng.range_i64(0, 46) as u32;
+            let x: i64 = if rng.chance(1, 2) { 1 } else { rng.range_i64(1, 255) };
+            let d2 = ((d as i64) ^ x) as i128;
+            let n2 = (((n as u64) ^ ((x as u64) << s)) & ((1u64 << 47) - 1)) as i128;
+            if !(0..D).contains(&n2) {
+                return None;
+            }
+            (d2 * D + n2, "alias/xor-fold")
+        }
+        2 => {
+            let u = *rng.pick(&[1_000i128, 1_000_000, NS, 60 * NS, 3_600 * NS]);
+            let k = rng.range_i128(1, (D / u).min(1 << 20));
+            let n2 = if rng.chance(2, 3) { ((n as u64) ^ ((k * u) as u64)) as i128 } else { ((n as u64) | ((k * u) as u64)) as i128 };
+            if !(0..D).contains(&n2) {
+                return None;
+            }
+            let dd = if rng.chance(1, 3) { rng.range_i128(-3, 3) } else { 0 };
+            ((d + dd) * D + n2, "alias/bitwise-unit-relative")
+        }
+        _ => {
+            let u = *rng.pick(&[1_000i128, 1_000_000, NS, 60 * NS, 3_600 * NS, D]);
+            let w = *rng.pick(&[32u32, 63, 64, 64, 64, 127]);
+            let res = ((1u128 << w) % (u as u128)) as i128;
+            let q = match rng.below(3) { 0 => 0, 1 => rng.range_i128(0, 100), _ => rng.range_i128(0, 1 << 30) };
+            let delta = q * u + res;
+            let i2 = d * D + n;
+            (if rng.chance(1, 2) { i2 + delta } else { i2 - delta }, "alias/wrapped-residue")
+        }
+    };
+    let i2 = d * D + n;
+    if j < lo || j > hi || i2 < lo || i2 > hi || j == i2 {
+        None
+    } else {
+        Some((i2, j, tag))
+    }
+}
+
+/// The same for a pair of times of day (both inside one day): returns (n1', n2).  For the radix fold the first time is
+/// re-drawn so that the relative exists.
+pub fn alias_time_pair(rng: &mut Rng, n1: u64) -> (u64, u64, &'static str) {
+    let dn = D as u64;
+    for _ in 0..8 {
+        match rng.below(3) {
+            0 => {
+                let u = *rng.pick(&[1_000u64, 1_000_000, 1_000_000_000, 60_000_000_000, 3_600_000_000_000]);
+                let k = rng.below((dn / u).min(1 << 20)).max(1);
+                let n2 = if rng.chance(2, 3) { n1 ^ (k * u) } else { n1 | (k * u) };
+                if n2 < dn && n2 != n1 {
+                    return (n1, n2, "alias/bitwise-unit-relative");
+                }
+            }
+            1 => {
+                let u = *rng.pick(&[1_000u128, 1_000_000, 1_000_000_000, 60_000_000_000, 3_600_000_000_000]);
+                let w = *rng.pick(&[32u32, 63, 64, 64, 64, 127]);
+                let res = ((1u128 << w) % u) as u64;
+                let q = rng.below((dn as u128 / u) as u64 + 1);
+                let delta = q * u as u64 + res;
+                if delta > 0 && delta < dn {
+                    // both orders, and the earlier time with a large / small sub-unit part
+                    let a = rng.below(dn - delta);
+                    return if rng.chance(1, 2) { (a, a + delta, "alias/wrapped-residue") } else { (a + delta, a, "alias/wrapped-residue") };
+                }
+            }
+            _ => {
+                let s = rng.range_i64(0, 46) as u32;
+                let n2 = n1 ^ (1u64 << s);
+                if n2 < dn {
+                    return (n1, n2, "alias/one-bit");
+                }
+            }
+        }
+    }
+    (n1, n1, "alias/none")
+}
